@@ -377,6 +377,7 @@ def c15(ctx):
 @check("C19", ["C19_"])
 def c19(ctx):
     files = transfer_family(ctx, design=False)
+    files += directed_traces(ctx, "api", 8)
     files += xfer_traces(ctx, ["reorder", "lossy", "basic", "clean"], 160, 4000)
     ctx.validate(files)
 
@@ -516,6 +517,42 @@ def c18(ctx):
     files += xfer_traces(ctx, ["basic", "lossy", "il"], 64, 2000)
     # the delivery monitors must keep holding around rejected / failed calls
     ctx.validate(files)
+
+
+@check("C12", ["C12_"])
+def c12(ctx):
+    binp = ctx.harness()
+    cfg = "MC_Framing_2.cfg" if ctx.quick else "MC_Framing_3.cfg"
+    r = L.run_tlc(ctx.scr, "MC_Framing", cfg, workers=8, timeout=1500, heap="8g")
+    if not r["ok"]:
+        raise L.MachineryError("MC_Framing did not pass:\n" + "\n".join(r["out"].splitlines()[-30:]))
+    ctx.design.append({"module": "MC_Framing", "cfg": cfg, "distinct": r["distinct"], "generated": r["generated"], "wall_s": r["wall_s"], "ok": True, "cmd": r["cmd"]})
+    path = os.path.join(r["wd"], "bundles.jsonl")
+    n = 0
+    with open(path, "w") as f:
+        for line in r["out"].splitlines():
+            m = re.match(r'<<"BEHAVIOUR", "(.*)">>\s*$', line)
+            if m:
+                f.write(m.group(1).replace('\\"', '"').replace("\\\\", "\\") + "\n")
+                n += 1
+    ctx.replayed += n
+    ctx.exhaustive = True
+    ctx.distinct.add(("framing-bundles", n))
+    ctx.samples.append({"bundle": open(path).readline().strip()})
+    out = ctx.scr.mkdir("framing")
+    ps = L.run_shards(binp, "framing", out, 8, {"VF_IN": path, "VF_NSHARDS": 8, "VF_NSEEDS": 2 if ctx.quick else 4})
+    for p in ps:
+        if p.returncode != 0:
+            raise L.MachineryError("framing failed: " + (p.stdout + p.stderr)[-2000:])
+    ctx.validate(sorted(glob.glob(os.path.join(out, "framing-*.ndjson"))), module="FramingTrace", cfg="FramingTrace.cfg")
+    # every packet emitted by associations in simulated runs
+    files = directed_traces(ctx, "api", 8)
+    files += directed_traces(ctx, "reconfig", 8, {"VF_FULL": "0"})
+    files += directed_traces(ctx, "shutdown", 8, {"VF_FULL": "0"})
+    files += xfer_traces(ctx, ["basic", "pr", "il", "lossy", "tiny"], 64, 3000)
+    ctx.validate(files)
+    ctx.notes.append("every bundle of <= %d chunk variants (30 variants over all 16 chunk kinds) enumerated by TLC, concretised with boundary field values; "
+                     "bit-exact fidelity for ALL field values is not claimed (boundary grid)" % (2 if ctx.quick else 3))
 
 
 @check("C10", ["C10_"])
